@@ -87,6 +87,13 @@ func (it *Interp) writeElems(fr *frame, dst *SliceV, start *Term, vals []Value, 
 	if len(vals) == 0 {
 		return
 	}
+	if o := dst.base.obj; (o.nowrite || (o.input && it.barrier)) && !n.IsConst() {
+		// protected target: separate the "nothing written" case so that a
+		// reported store comes with a model in which it really happens
+		if it.ex.branch(it.tt.Eq(n, it.tt.Const(64, 0)), false) {
+			return
+		}
+	}
 	arr := it.arrayOf(dst.base)
 	for k, v := range vals {
 		idx := it.tt.Add(it.tt.Add(dst.off, start), it.tt.Const(64, uint64(k)))
